@@ -11,7 +11,8 @@
 (*     top   : top-level blocks                                            *)
 (*       [k |-> "L", name |-> n, body |-> stmts]   lookup L<n> {..} L<n>;  *)
 (*       [k |-> "F", tag |-> t,  body |-> stmts]   feature t {..} t;       *)
-(*   stmts: [k |-> "flag", v |-> 0|8]       lookupflag 0; / IgnoreMarks;   *)
+(*   stmts: [k |-> "flag", v |-> 0|8|100+c|200+c]  lookupflag 0; / IgnoreMarks;*)
+(*             / UseMarkFilteringSet @C<c>; / MarkAttachmentType @C<c>;      *)
 (*          [k |-> "script", tag |-> s]     script s;                      *)
 (*          [k |-> "lang", tag |-> l, excl |-> B]  language l [exclude_dflt]; *)
 (*          [k |-> "ref", name |-> n]       lookup L<n>;                   *)
@@ -271,15 +272,27 @@ LookupOk(L) ==
 
 Compile(p) ==
   LET w == Walk(p)
-      okL == w.ok /\ \A i \in 1..Len(w.lk) : LookupOk(w.lk[i])
+      \* a glyph has one mark attachment class: the classes named by MarkAttachmentType must not overlap
+      mats == {SetOf(p.cls[w.lk[i].fl - 200]) : i \in {j \in 1..Len(w.lk) : w.lk[j].fl > 200}}
+      okL == /\ w.ok
+             /\ \A i \in 1..Len(w.lk) : LookupOk(w.lk[i])
+             /\ \A A \in mats : \A B \in mats : EqOrDisjoint(A, B)
   IN [lk |-> w.lk, reg |-> w.reg, ok |-> okL,
       why |-> IF w.ok /\ ~okL THEN {"overlapping rules in one lookup"} ELSE w.why,
-      marks |-> SetOf(p.marks)]
+      marks |-> SetOf(p.marks), cls |-> p.cls]
 
 ---------------------------------------------------------------------------
-(* OpenType application.  E = [lk, marks]; fl = lookup flag (8: IgnoreMarks) *)
+(* OpenType application.  E = [lk, marks, cls]; fl = lookup flag:           *)
+(* 8 IgnoreMarks: every mark is skipped; 100+c UseMarkFilteringSet @C<c>:   *)
+(* marks not in the set are skipped; 200+c MarkAttachmentType @C<c>: marks  *)
+(* of another attachment class (not in the class) are skipped.  Only marks  *)
+(* are ever skipped by these flags.                                         *)
 
-Ign(E, fl, g) == fl = 8 /\ g \in E.marks
+Ign(E, fl, g) ==
+  /\ g \in E.marks
+  /\ \/ fl = 8
+     \/ fl > 200 /\ g \notin SetOf(E.cls[fl - 200])
+     \/ fl > 100 /\ fl < 200 /\ g \notin SetOf(E.cls[fl - 100])
 
 RECURSIVE Nxt(_, _, _, _)
 Nxt(E, fl, gs, i) == IF i > Len(gs) THEN i ELSE IF Ign(E, fl, gs[i]) THEN Nxt(E, fl, gs, i + 1) ELSE i
@@ -474,7 +487,8 @@ IMS(to) == <<[t |-> "ms", to |-> to]>>
 SP(g, v) == [t |-> "sp", g |-> g, v |-> v]
 PP(a, b, v) == [t |-> "pp", a |-> a, b |-> b, v |-> v]
 
-NamedClasses == << <<1, 2>>, <<3, 4>>, <<4, 3>> >>   \* @C1 = [a b]; @C2 = [c d]; @C3 = [d c];
+\* @C1 = [a b]; @C2 = [c d]; @C3 = [d c]; @C4 = [m]; @C5 = [n]; @C6 = [m n];   (m = 5 and n = 6 are marks)
+NamedClasses == << <<1, 2>>, <<3, 4>>, <<4, 3>>, <<5>>, <<6>>, <<5, 6>> >>
 
 USS == << SS(G(1), G(2)), SS(G(2), G(3)), SS(G(3), G(1)), SS(Cl(<<1, 2>>), G(4)),
           SS(Cl(<<1, 2>>), Cl(<<3, 4>>)), SS(Cl(<<2, 1>>), Cl(<<3, 4>>)), SS(Rg(1, 3), G(4)),
@@ -537,8 +551,11 @@ F2 == "kern"
 LsD  == << <<"DFLT", "dflt">> >>
 LsDL == << <<"DFLT", "dflt">>, <<"latn", "dflt">> >>
 
+\* input alphabet: a b c d m, or a b c m n when some lookupflag names a mark set / attachment class
+UsesSets(slots) == \E i \in 1..Len(slots) : slots[i].fl >= 100
 Prog(ls, slots, top) ==
-  [ls |-> ls, cls |-> NamedClasses, marks |-> <<5>>, alpha |-> <<1, 2, 3, 4, 5>>,
+  [ls |-> ls, cls |-> NamedClasses, marks |-> <<5, 6>>,
+   alpha |-> IF UsesSets(slots) THEN <<1, 2, 3, 5, 6>> ELSE <<1, 2, 3, 4, 5>>,
    top |-> (IF UsesHelpers(slots) THEN HelperLookups ELSE <<>>) \o top]
 
 TplSeq1 == <<"anon", "nested", "ref">>
@@ -598,9 +615,24 @@ FlagOf(c) == IF c = 0 THEN -1 ELSE IF c = 1 THEN 0 ELSE 8
 CasesB == {[tpl |-> TplSeq2[x[1]], slots |-> <<[fl |-> FlagOf(2 * x[2]), t |-> "red", ix |-> <<x[4]>>],
                                                [fl |-> FlagOf(x[3]), t |-> "red", ix |-> <<x[5]>>]>>] :
              x \in {y \in (1..Len(TplSeq2)) \X {0, 1} \X {0, 1, 2} \X (1..NR) \X (1..NR) :
-                       Keep(((((y[1] - 1) * 2 + y[2]) * 3 + y[3]) * NR + (y[4] - 1)) * NR + (y[5] - 1))}}
+                       \/ Keep(((((y[1] - 1) * 2 + y[2]) * 3 + y[3]) * NR + (y[4] - 1)) * NR + (y[5] - 1))
+                       \* never thinned: same feature block, same rule type, only the lookupflag separates the lookups
+                       \/ /\ y[1] = 1 /\ Reduced[y[4]].t = Reduced[y[5]].t
+                          /\ (y[2] = 0 /\ y[3] = 2) \/ (y[2] = 1 /\ y[3] = 1)}}
 
-SlotOf(s) == Slot(s.fl, [k \in 1..Len(s.ix) |-> IF s.t = "red" THEN Reduced[s.ix[k]] ELSE Univ[s.t][s.ix[k]]])
+\* ---- generator D: two-lookup programs whose lookupflags name mark filtering sets / attachment classes
+\* (and IgnoreMarks), one rule each from the mark-sensitive universe RedM
+RedM == << USS[1], ULS[1], ULS[5], UCS[1], UCS[2], UCS[6], USP[3], UPP[1], UPP[6] >>
+TplSeqD == <<"aa", "ra", "sc", "same">>
+FlagsD == <<8, 104, 105, 204, 205>>
+NM == Len(RedM)
+CasesD == {[tpl |-> TplSeqD[x[1]], slots |-> <<[fl |-> FlagsD[x[2]], t |-> "redm", ix |-> <<x[4]>>],
+                                               [fl |-> FlagsD[x[3]], t |-> "redm", ix |-> <<x[5]>>]>>] :
+             x \in {y \in (1..Len(TplSeqD)) \X (1..Len(FlagsD)) \X (1..Len(FlagsD)) \X (1..NM) \X (1..NM) :
+                       Keep(((((y[1] - 1) * Len(FlagsD) + y[2] - 1) * Len(FlagsD) + y[3] - 1) * NM + (y[4] - 1)) * NM + (y[5] - 1))}}
+
+SlotOf(s) == Slot(s.fl, [k \in 1..Len(s.ix) |-> IF s.t = "red" THEN Reduced[s.ix[k]]
+                                                ELSE IF s.t = "redm" THEN RedM[s.ix[k]] ELSE Univ[s.t][s.ix[k]]])
 ProgOf(c) == Build(c.tpl, [k \in 1..Len(c.slots) |-> SlotOf(c.slots[k])])
 
 VARIABLE st
@@ -608,10 +640,12 @@ VARIABLE st
 \* generators A and B: one state per candidate
 InitA == st \in CasesA
 InitB == st \in CasesB
+InitD == st \in CasesD
 NextNone == UNCHANGED st
 
 \* (whether a candidate is well-formed is decided when it is evaluated: FeaSemObs / Expected(p).ok)
-EmitCase == PrintT(<<"REPLAY", ToJson([tpl |-> st.tpl, p |-> ProgOf(st)])>>)
+EmitCase == PrintT(<<"REPLAY", ToJson([tpl |-> st.tpl, p |-> ProgOf(st),
+                                       fl |-> [k \in 1..Len(st.slots) |-> st.slots[k].fl]])>>)
 
 \* ---- generator C (tlc -simulate): a template with up to three slots of up to three rules
 InitC == st = [phase |-> "tpl", tpl |-> "", slots |-> <<>>, want |-> 0, n |-> 0]
@@ -621,7 +655,7 @@ NextC ==
           st' = [st EXCEPT !.phase = "slot", !.tpl = tpl,
                            !.want = IF tpl \in Templates1 THEN 1 ELSE IF tpl \in Templates2 THEN 2 ELSE 3]
   \/ /\ st.phase = "slot"
-     /\ \E t \in Types, fl \in {-1, 0, 8}, n \in 1..3 :
+     /\ \E t \in Types, fl \in {-1, 0, 8, 104, 105, 204}, n \in 1..3 :
           st' = [st EXCEPT !.phase = "rule", !.n = n, !.slots = Append(@, [fl |-> fl, t |-> t, ix |-> <<>>])]
   \/ /\ st.phase = "rule"
      /\ LET k == Len(st.slots)
@@ -637,6 +671,7 @@ NextC ==
 
 EmitSim ==
   IF st.phase # "done" THEN TRUE
-  ELSE PrintT(<<"REPLAY", ToJson([tpl |-> st.tpl, p |-> ProgOf(st)])>>)
+  ELSE PrintT(<<"REPLAY", ToJson([tpl |-> st.tpl, p |-> ProgOf(st),
+                                  fl |-> [k \in 1..Len(st.slots) |-> st.slots[k].fl]])>>)
 
 =============================================================================
